@@ -21,7 +21,8 @@ from harness import doubles
 from harness import c06 as K
 
 RULE = ('sample sets of 1-500 samples, 1-5 dimensions, weights: random / all equal / tied groups / zeros (underflow) / '
-        'one dominant / nested-sampling-like decades, values distinct or (small sets) tied; 1-3 modes of unequal size '
+        'one dominant / nested-sampling-like decades / plateau (greatest weight shared by 2-4 different samples; the MAP vector '
+        'judged as ONE stored sample of greatest weight), values distinct or (small sets) tied; 1-3 modes of unequal size '
         'for MultiNest (multimodal and not) and PolyChord; fitted subsets with linear/log priors, 0-2 derived parameters; '
         'fixture polynomial model with GridObs/NativeBinner or ArraySpectrum/FluxBinner and a real TransmissionModel '
         '(isothermal / NPoint / Guillot; fitted subsets: as generated / planet mass without the radius (disable_fit) / mass and '
